@@ -116,7 +116,7 @@ func init() {
 			Ideal: famReady(3, 2, 5), IdealDeep: famReady(3, 2, 7), IdealProps: []string{"P_C08"}, IdealInvs: []string{"CodeReadyIsSpecReady"}, Probes: probeClaimOrder,
 			Proc: &ProcCheck{Prop: "C08", Scenarios: "ClaimScenarios", IdealInvs: []string{"Serializable"}, Only: []string{"C08_serial"}},
 			GenQuick: famReady(2, 2, 4), GenThorough: famReady(3, 2, 6), SampleQuick: 120,
-			CraftQuick: famCraft(1200, "claim", "list_ready"), CraftThorough: famCraft(40000, "claim", "list_ready"),
+			CraftQuick: famCraft(700, "claim", "list_ready"), CraftThorough: famCraft(40000, "claim", "list_ready"),
 			Sim: famReady(4, 2, 14), SimNumQuick: 60, SimNumThorough: 2000}
 	}
 	registry["C09"] = func() Check {
@@ -170,7 +170,7 @@ func init() {
 	}
 	registry["C05"] = func() Check {
 		return &SeqCheck{Prop: "C05",
-			Ideal: famCompact(5), IdealDeep: famCompact(7), IdealProps: []string{"P_C05"}, Probes: append(append([]emitted{}, probeCompact...), probeClaimOrder...),
+			Ideal: famCompact(4), IdealDeep: famCompact(6), IdealProps: []string{"P_C05"}, Probes: append(append([]emitted{}, probeCompact...), probeClaimOrder...),
 			GenQuick: famCompact(4), GenThorough: famCompact(6), SampleQuick: 150,
 			// (random crafted stores are NOT used here: C05 quantifies over histories ergo can
 			// produce plus legacy logs; a hand-made "canceled but claimed" item does lose its
